@@ -353,8 +353,8 @@ pub proof fn lemma_ext_trans(a: Seq<SessionFrame>, b: Seq<SessionFrame>, c: Seq<
 
 impl SessionEngine {
 //@@ fn file=fe2o3-amqp/src/session/engine.rs impl=`~impl<S>SessionEngine<S>whereS:endpoint::SessionEndpoint<State=SessionState>+SendBound+Sync+'static,` name=on_outgoing_link_frames
-//@@ subst `.map(SessionOutgoingItem::SingleFrame)` => `.map(|v0: SessionFrame| -> (o: SessionOutgoingItem) ensures o == SessionOutgoingItem::SingleFrame(v0) { SessionOutgoingItem::SingleFrame(v0) })` rule=R18
-//@@ subst `.map(Some)` => `.map(|v0: SessionOutgoingItem| -> (o: Option<SessionOutgoingItem>) ensures o == Some(v0) { Some(v0) })` rule=R18
+//@@ subst `.map(SessionOutgoingItem::SingleFrame)` => `.map(|v0: SessionFrame| -> (o: SessionOutgoingItem) ensures o == SessionOutgoingItem::SingleFrame(v0) { SessionOutgoingItem::SingleFrame(v0) })` rule=R18 unless `\.map\(`
+//@@ subst `.map(Some)` => `.map(|v0: SessionOutgoingItem| -> (o: Option<SessionOutgoingItem>) ensures o == Some(v0) { Some(v0) })` rule=R18 unless `\.map\(`
 //@@ subst `&self.outgoing` => `&mut self.outgoing` rule=R9
 //@@ subst `self.outgoing_link_frames.close()` => `self.outgoing_link_frames.close(Ghost(self.session.stop is Some))` rule=optional-R9
 //@@ subst `unreachable!("LinkFrame::Acquisition should not appear in outgoing link frames")` => `{ assume(false); None }` rule=optional-R12
